@@ -62,7 +62,7 @@ inductive L
   | rangeStart (stop : Option Nat) (oracle : List Nat)                 -- Range: about to RLock and start `range m.data`
   | range (stop : Option Nat) (acc : Entries) (oracle : List Nat) (g : Nat)   -- … about to RLock and advance the iterator (of map object g)
   | rangeStop (acc : Entries)                                          -- callback returned false: RLock, return
-  | sweepStart (oracle : List Nat)                                     -- CheckExpirations: reads the clock, first RLock
+  | sweepStart (t : Option Nat) (oracle : List Nat)                    -- CheckExpirations(now): now = t, or the clock read here; first RLock
   | sweepIter (t : Nat) (acc : List Val) (oracle : List Nat) (g : Nat) -- about to RLock and advance the iterator
   | sweepExpire (t : Nat) (k : Nat) (e : Val) (acc : List Val) (oracle : List Nat) (g : Nat)   -- saw (k, e) expired: about to Lock
   deriving DecidableEq, Repr
@@ -70,13 +70,13 @@ inductive L
 def start (c : Call) : L :=
   match c.op with
   | .range stop _ _ => .rangeStart stop c.oracle
-  | .sweep _ => .sweepStart c.oracle
+  | .sweep t => .sweepStart t c.oracle
   | op => .single op
 
 def view (c : Call) : Op :=
   match c.op with
   | .range stop _ _ => .range stop [] none
-  | .sweep _ => .sweep none
+  | .sweep t => .sweep t
   | op => op
 
 /-- one read-locked step of an iteration: the next key the iterator produces and its current value -/
@@ -123,7 +123,7 @@ def step (l : L) (d : MState) : MState × (L ⊕ Res) :=
   | .rangeStart stop oracle => rangeStep stop [] oracle d.gen d
   | .range stop acc oracle g => rangeStep stop acc oracle g d
   | .rangeStop acc => (d, .inr (.visits acc))
-  | .sweepStart oracle => sweepStep d.now [] oracle d.gen d
+  | .sweepStart t oracle => sweepStep (t.getD d.now) [] oracle d.gen d
   | .sweepIter t acc oracle g => sweepStep t acc oracle g d
   | .sweepExpire t k e acc cs g =>
     let r := expireSection k e t d.data
